@@ -142,13 +142,21 @@ fn is_ambiguous_value(s: &str, yaml_12: bool) -> bool {
 ///
 /// Returns true if `s` can be emitted as a plain scalar without quoting.
 /// Internal heuristic used by `write_plain_or_quoted`.
+/// True when the first or last character rules out plain style whatever lies in between:
+/// trailing white space is not part of a plain scalar (a reader drops it) and a leading
+/// U+FEFF would be taken for a byte order mark.
+#[inline]
+pub(crate) fn has_unsafe_plain_edge(s: &str) -> bool {
+    s.ends_with([' ', '\t']) || s.starts_with('\u{FEFF}')
+}
+
 #[inline]
 pub(crate) fn is_plain_safe(s: &str) -> bool {
     if is_ambiguous(s) {
         return false;
     }
     let bytes = s.as_bytes();
-    if bytes[0].is_ascii_whitespace() {
+    if bytes[0].is_ascii_whitespace() || has_unsafe_plain_edge(s) {
         return false;
     }
 
